@@ -483,6 +483,12 @@ def _await_descriptor_upload(tor_protocol, onion, progress, await_all_uploads):
                         uploaded.callback(onion)
 
         elif subtype == 'FAILED':
+            # a FAILED whose REASON only a descriptor *fetch* can have (this
+            # Tor looking up our own descriptor) says nothing about uploads
+            fetch_only = ('REASON=NOT_FOUND', 'REASON=QUERY_REJECTED', 'REASON=QUERY_NO_HSDIR',
+                          'REASON=QUERY_RATE_LIMITED', 'REASON=BAD_DESC')
+            if any(a in fetch_only for a in args[4:]):
+                return
             if args[3] in attempted_uploads and hostname_matches('{}.onion'.format(args[1])):
                 failed_uploads.add(args[3])
                 pending_uploads.discard(args[3])
